@@ -19,7 +19,7 @@ M_TAGS = dict(M_PLAIN, tags=[
     {"token": [HI], "cats": [[[70, 47, 70]], [[71, 32, 71], [72, 92], [73]]], "cng": [], "tng": [{"ng": [3], "tw": [{"rel": 0, "w": [1, 5, 2]}]}], "bias": [2, 0, 1]}])
 
 LINES = {"plain": "aああa", "multi": "あaあ", "half": "a1-b", "spaces": "a あ", "slash": "a/あ\\a", "empty": "", "nul": "a\0あ",
-         "cr": "aあ\r", "one": "あ", "long": "ああaaあa1あ", "fullw": "あ｡あ～", "dash": "コ―ヒ－あ", "onea": "a", "oneslash": "/"}
+         "cr": "aあ\r", "trailsp": "aあ ", "trailfw": "あa\u3000", "blanks": "  ", "tabend": "a1\t", "one": "あ", "long": "ああaaあa1あ", "fullw": "あ｡あ～", "dash": "コ―ヒ－あ", "onea": "a", "oneslash": "/"}
 # a model that splits everywhere (bias only) with tag models: filters that join tokens change which tokens exist
 M_EVAL = {"bias": 5, "cw": 1, "tw": 1, "cng": [], "tng": [], "dict": [], "tags": [
     {"token": [HI], "cats": [[[70]], [[71], [72]]], "cng": [], "tng": [], "bias": [1, 2]},
@@ -61,7 +61,8 @@ def predict_tool(ctx, binp, cli, wd):
     allflags = [dict(zip(flagnames, bits)) for bits in itertools.product([False, True], repeat=4)]
     names = list(LINES.keys())
     streams = [([n], True) for n in names] + [(["fullw", "dash"], False), (["onea", "oneslash", "one"], True), (["plain", "empty", "multi"], True), (["nul", "plain"], True), (["plain", "nul"], False),
-                                              (["empty", "half", "spaces"], True), (["slash", "cr", "one"], False), (["long", "half"], True)]
+                                              (["empty", "half", "spaces"], True), (["slash", "cr", "one"], False), (["long", "half"], True),
+                                              (["trailsp", "plain", "trailfw"], True), (["blanks", "tabend"], False)]
     rnd = random.Random(ctx.seed)
     runs = []
     for fl in allflags:
@@ -254,7 +255,8 @@ def train_tool(ctx, binp, cli, wd):
     """train (the CLI) must produce byte for byte the model the library produces from the corpus as the specification says it is
     loaded (Gen_TrainCorpus: parse, normalise the text only, keep labels and tags; dictionary = sorted token surfaces)."""
     tok1 = ["aあ 1a a", "あ aa1", "1 aあa 1", "a/A あ/B 1", "a/Z あ/B"]
-    tok2 = ["ab-c d.e", "A1 b2/N/M c", "ｱa 漢字/K a-b"]
+    # (lines whose first / last token is a white-space character other than U+0020: ordinary tokens of the tokenized format)
+    tok2 = ["ab-c d.e", "A1 b2/N/M c", "ｱa 漢字/K a-b", "\u3000 a あ1 \u3000", "\ta \u00a0"]
     part1 = ["a|あ-a 1|a", "あ a-1|a/Q"]
     dict1 = ["a/A", "aあ", "b-/X 1"]
     cases = []
